@@ -394,7 +394,7 @@ class Result:
 
 
 # ---------------------------------------------------------------- guards for implementation runs
-class ImplTimeout(Exception):
+class ImplTimeout(BaseException):      # not an Exception: fandango swallows those in places
     pass
 
 
